@@ -1382,6 +1382,109 @@ static void do_tree(CMR* cmr)
   CMRchrmatFree(cmr, &M);
 }
 
+/* ---------- C20: text formats ---------- */
+
+/* case: fmt(0 dense, 1 sparse) ty(0 char, 1 int) nbytes bytes...    record: fmt ty nbytes bytes.. rc hasM [csr] */
+static void do_textread(CMR* cmr)
+{
+  long long fmt = nx(), ty = nx();
+  size_t nb = nx();
+  char* buf = malloc(nb + 1);
+  for (size_t i = 0; i < nb; ++i)
+    buf[i] = (char) nx();
+  buf[nb] = 0;
+  FILE* f = nb ? fmemopen(buf, nb, "r") : fopen("/dev/null", "r");
+  CMR_CHRMAT* cm = NULL;
+  CMR_INTMAT* im = NULL;
+  CMR_ERROR rc;
+  if (ty == 0)
+    rc = fmt ? CMRchrmatCreateFromSparseStream(cmr, f, &cm) : CMRchrmatCreateFromDenseStream(cmr, f, &cm);
+  else
+    rc = fmt ? CMRintmatCreateFromSparseStream(cmr, f, &im) : CMRintmatCreateFromDenseStream(cmr, f, &im);
+  fclose(f);
+  rec_begin();
+  oi(fmt); oi(ty);
+  osz(nb);
+  for (size_t i = 0; i < nb; ++i)
+    oi((unsigned char) buf[i]);
+  oi(rc);
+  if (!rc && cm)
+  {
+    oi(1);
+    o_chr_csr(cm);
+  }
+  else if (!rc && im)
+  {
+    oi(1);
+    o_int_csr(im);
+  }
+  else
+    oi(0);
+  rec_end();
+  if (cm)
+    CMRchrmatFree(cmr, &cm);
+  if (im)
+    CMRintmatFree(cmr, &im);
+  free(buf);
+}
+
+/* case: fmt ty M     record: fmt ty M nbytes bytes(printed by the library) rc2 hasM2 [csr re-read] */
+static void do_textwrite(CMR* cmr)
+{
+  long long fmt = nx(), ty = nx();
+  CMR_CHRMAT* cm = NULL;
+  CMR_INTMAT* im = NULL;
+  if (ty == 0)
+    cm = read_chrmat(cmr);
+  else
+    im = read_intmat(cmr);
+  char* buf = NULL;
+  size_t len = 0;
+  FILE* f = open_memstream(&buf, &len);
+  if (ty == 0)
+    fmt ? CMRchrmatPrintSparse(cmr, cm, f) : CMRchrmatPrintDense(cmr, cm, f, '0', false);
+  else
+    fmt ? CMRintmatPrintSparse(cmr, im, f) : CMRintmatPrintDense(cmr, im, f, '0', false);
+  fclose(f);
+  rec_begin();
+  oi(fmt); oi(ty);
+  if (ty == 0)
+    o_chr_dense(cm);
+  else
+    o_int_dense(im);
+  osz(len);
+  for (size_t i = 0; i < len; ++i)
+    oi((unsigned char) buf[i]);
+  FILE* g = len ? fmemopen(buf, len, "r") : fopen("/dev/null", "r");
+  CMR_CHRMAT* cm2 = NULL;
+  CMR_INTMAT* im2 = NULL;
+  CMR_ERROR rc;
+  if (ty == 0)
+    rc = fmt ? CMRchrmatCreateFromSparseStream(cmr, g, &cm2) : CMRchrmatCreateFromDenseStream(cmr, g, &cm2);
+  else
+    rc = fmt ? CMRintmatCreateFromSparseStream(cmr, g, &im2) : CMRintmatCreateFromDenseStream(cmr, g, &im2);
+  fclose(g);
+  oi(rc);
+  if (!rc && cm2)
+  {
+    oi(1);
+    o_chr_csr(cm2);
+  }
+  else if (!rc && im2)
+  {
+    oi(1);
+    o_int_csr(im2);
+  }
+  else
+    oi(0);
+  rec_end();
+  if (cm) CMRchrmatFree(cmr, &cm);
+  if (im) CMRintmatFree(cmr, &im);
+  if (cm2) CMRchrmatFree(cmr, &cm2);
+  if (im2) CMRintmatFree(cmr, &im2);
+  free(buf);
+}
+
 /* ---------- dispatch ---------- */
 
 typedef void (*handler)(CMR*);
@@ -1405,6 +1508,8 @@ static struct
   {"kcompose", do_kcompose},
   {"kdecomp", do_kdecomp},
   {"tree", do_tree},
+  {"textread", do_textread},
+  {"textwrite", do_textwrite},
   {NULL, NULL}
 };
 
